@@ -206,7 +206,7 @@ class FnInfo:
 ANNOTATIONS = {
     "_np.ndarray": MAT, "int": INT, "float": RAT, "Real": RAT, "bool": BOOL,
     "tuple[_np.ndarray, ...]": TList(MAT), "list[_np.ndarray]": TList(MAT), "Iterable[_np.ndarray, ...]": TList(MAT),
-    "_np.ndarray | None": TOpt(MAT),
+    "_np.ndarray | None": TOpt(MAT), "list[int]": TList(INT), "tuple[int, ...]": TList(INT),
 }
 IGNORED_KW = {"dtype"}
 
@@ -285,6 +285,27 @@ class Unit:
         self.defs.append(info.text)
         return info
 
+    def method(self, spec: ClassSpec, name: str) -> FnInfo:
+        """a method of a class of this unit's file that reads and stores attributes of `self` (the generated definition
+        takes the object and returns the updated object when the method has no return value)"""
+        key = f"{spec.pyname}.{name}"
+        if key in self.fns:
+            return self.fns[key]
+        if key in self.in_progress:
+            raise Untranslatable(f"{self.relpath}: recursive method {key}")
+        src = self.class_source(spec)
+        node = src.find(spec.pyname, name)
+        if not isinstance(node, ast.FunctionDef):
+            raise Untranslatable(f"{spec.relpath}: {key} is not a method")
+        if node.decorator_list:
+            raise Untranslatable(f"{spec.relpath}: {key} is decorated")
+        self.in_progress.append(key)
+        info = FnTr(self, node, key, lean_name=f"{spec.lean}.{lname(name)}", self_spec=spec, method=True).translate()
+        self.in_progress.pop()
+        self.fns[key] = info
+        self.defs.append(info.text)
+        return info
+
     def is_module_function(self, name: str) -> bool:
         return any(isinstance(n, ast.FunctionDef) and n.name == name for n in self.src.tree.body)
 
@@ -359,8 +380,9 @@ def proj(text: str, i: int, n: int) -> str:
 
 class FnTr:
     def __init__(self, unit: Unit, node: ast.FunctionDef, qual: str, lean_name: str, self_spec: ClassSpec | None = None,
-                 parent: "FnTr | None" = None, parent_env: dict | None = None):
+                 parent: "FnTr | None" = None, parent_env: dict | None = None, method: bool = False):
         self.unit, self.node, self.qual, self.lean_name = unit, node, qual, lean_name
+        self.method = method                # a method that may store attributes of `self`; without a return value it returns `self`
         self.self_spec, self.parent, self.parent_env = self_spec, parent, parent_env
         self.info = FnInfo()
         self.info.lean = lean_name
@@ -419,7 +441,7 @@ class FnTr:
         spec = self.unit.class_by_annotation(text)
         if spec is not None:
             self.unit.use_class(spec)
-            return TObj(spec.pyname)
+            return TObj(spec.lean)
         self.bad(f"annotation `{text}` of parameter `{pname}` is not in the type table")
 
     # -- the function ------------------------------------------------------------------------------------------
@@ -435,7 +457,7 @@ class FnTr:
                 if self.self_spec is None:
                     self.bad("method without a class specification")
                 self.unit.use_class(self.self_spec)
-                ty = TObj(self.self_spec.pyname)
+                ty = TObj(self.self_spec.lean)
             else:
                 ty = self.annotation_type(p.annotation, p.arg)
             params.append((p.arg, ty))
@@ -456,7 +478,12 @@ class FnTr:
         self.info.captured = [(c, self.parent_env[c].ty) for c in captured]
         body = strip_doc(self.node.body)
         self.after_stack.append([])
-        text = self.block(body, env, None, 1)
+        tail = None
+        if self.method:
+            def tail(e):
+                self.returns.append(Val("self", e["self"].ty, EXT))
+                return "self"
+        text = self.block(body, env, tail, 1)
         self.after_stack.pop()
         if not self.returns:
             self.bad("function does not return a value")
@@ -506,7 +533,11 @@ class FnTr:
                     if rest:
                         self.bad("statements after return", rest[0])
                     if st.value is None:
-                        self.bad("bare return")
+                        if not self.method:
+                            self.bad("bare return")
+                        self.returns.append(Val("self", env["self"].ty, EXT))
+                        lines.append(ind + "self")
+                        return "\n".join(lines)
                     v = self.expr(st.value, env)
                     if isinstance(st.value, ast.Name) and st.value.id in env:
                         vv = env[st.value.id]
@@ -593,6 +624,15 @@ class FnTr:
             return out
         if isinstance(target, ast.Subscript) and isinstance(target.value, ast.Name):
             return self.subscript_assign(target, value, env)
+        if isinstance(target, ast.Attribute) and isinstance(target.value, ast.Name) and target.value.id == "self" \
+                and self.method and "self" in env and env["self"].ty.kind == "obj":
+            spec = self.self_spec
+            if target.attr not in spec.fields:
+                self.bad(f"store to `self.{target.attr}`, which is not a declared stored attribute of {spec.pyname}", target)
+            v = self.coerce(self.expr(value, env), spec.fields[target.attr], value)
+            if v.ty.kind in MUTABLE and not v.temp and v.region is not None:
+                self.shared.add(v.region)      # the object now holds the array as well
+            return [f"let self : {spec.lean} := {{ self with {lname(target.attr)} := {v.text} }}"]
         self.bad("assignment target outside the subset", target)
 
     def subscript_assign(self, target: ast.Subscript, value, env: dict) -> list[str]:
@@ -663,6 +703,21 @@ class FnTr:
                 return [f"let {L} : QMat := QMatNp.fillSlice {L} {' '.join(b)} {self.to_rat(v)}"]
             v = self.as_mat(v, value)
             return [f"let {L} : QMat := QMatNp.setSlice {L} {' '.join(b)} {v.text}"]
+        if (isinstance(r, ast.List) or isinstance(c, ast.List)) and not (isinstance(r, ast.List) and isinstance(c, ast.List)) \
+                and not isinstance(r, ast.Slice) and not isinstance(c, ast.Slice) and isinstance(value, ast.Tuple):
+            # X[i, [a, b]] = (u, v)  /  X[[a, b], i] = (u, v): element assignments, left to right
+            idxs = r.elts if isinstance(r, ast.List) else c.elts
+            if len(idxs) != len(value.elts) or not idxs:
+                self.bad("index list and value tuple of different lengths", target)
+            out = []
+            for ix, val in zip(idxs, value.elts):
+                i = self.expr(ix if isinstance(r, ast.List) else r, env)
+                j = self.expr(c if isinstance(r, ast.List) else ix, env)
+                v = self.expr(val, env)
+                if i.ty != INT or j.ty != INT or v.ty not in (INT, RAT):
+                    self.bad("element subscripts are not ints or the value is not a scalar", target)
+                out.append(f"let {L} : QMat := QMatNp.setEntry {L} {i.text} {j.text} {self.to_rat(v)}")
+            return out
         if not isinstance(r, ast.Slice) and not isinstance(c, ast.Slice):
             i, j = self.expr(r, env), self.expr(c, env)
             if i.ty != INT or j.ty != INT:
@@ -830,7 +885,7 @@ class FnTr:
             xs = self.expr(it.args[0], env)
             if xs.ty.kind != "list":
                 self.bad("enumerate() of a non-list", it)
-            space, loop_tys = f"((QMatNp.range ({xs.text}).length).zip {xs.text})", [INT, xs.ty.args[0]]
+            space, loop_tys = f"(QMatNp.enumerate {xs.text})", [INT, xs.ty.args[0]]
         else:
             xs = self.expr(it, env)
             if xs.ty.kind != "list":
@@ -1001,6 +1056,9 @@ class FnTr:
         if isinstance(node, ast.Attribute):
             return self.attribute(node, env)
         if isinstance(node, ast.UnaryOp):
+            if isinstance(node.op, ast.USub) and isinstance(node.operand, ast.Constant) and isinstance(node.operand.value, int) \
+                    and not isinstance(node.operand.value, bool):
+                return Val(f"(-{node.operand.value} : Int)", INT)
             v = self.expr(node.operand, env)
             if isinstance(node.op, ast.USub):
                 if v.ty in (INT, RAT):
@@ -1009,6 +1067,8 @@ class FnTr:
                 return Val(f"(-{m.text})", MAT, self.fresh_region(), True)
             if isinstance(node.op, ast.Invert) and v.ty == MASK:
                 return Val(f"(QMatNp.maskNot {v.text})", MASK, self.fresh_region(), True)
+            if isinstance(node.op, ast.Not) and v.ty.kind == "list":
+                return Val(f"({v.text}.isEmpty = true)", PROP)
             if isinstance(node.op, ast.Not) and v.ty in (BOOL, PROP):
                 return Val(f"(!{v.text})", BOOL) if v.ty == BOOL else Val(f"(¬ {v.text})", PROP)
             self.bad("unary operator outside the subset", node)
@@ -1064,7 +1124,7 @@ class FnTr:
                 return Val(f"(QMatNp.shape {m.text})", SHAPE)
             self.bad(f"array attribute `.{node.attr}`", node)
         if base.ty.kind == "obj":
-            spec = next(s for s in self.unit.classes.values() if s.pyname == base.ty.args[0])
+            spec = next(s for s in self.unit.classes.values() if s.lean == base.ty.args[0])
             kind, ty = self.unit.attribute(spec, node.attr, self.qual)
             return Val(f"{base.text}.{lname(node.attr)}", ty, EXT if ty.kind in MUTABLE else None)
         self.bad(f"attribute of a value of type {base.ty}", node)
